@@ -793,6 +793,28 @@ pub fn generate(prop: &str, thorough: bool, rng: &mut Rng, emit: &mut Emit) {
                 };
                 emit("settings.ins", vec![hex(&ser(&base)), hex(&ser(&with))]);
             }
+            // an ignorable element that is only partly there: whatever its payload looks like, a
+            // buffer that ends inside it is "need more", never frames read out of its payload
+            for _ in 0..40 * scale {
+                let role = *rng.pick(&["birem", "biloc", "unirem", "sess"]);
+                let id = if rng.chance(1, 3) { grease_id(rng) } else { unknown_frame_id(rng) };
+                let mut payload = frame_arg_bytes(&format!("data:{}:-", hex(b"SMUGGLED")));
+                payload.extend(frame_arg_bytes(&format!("settings:{}:-", hex(&[0x08, 0x01]))));
+                payload.extend(rbytes(rng, 8));
+                let mut e = frame_arg_bytes(&format!("headers:{}:-", hex(&[0x00, 0x00])));
+                let start = e.len();
+                e.extend(enc_varint(id));
+                e.extend(enc_varint(payload.len() as u64));
+                e.extend(&payload);
+                let end = e.len();
+                e.extend(frame_arg_bytes(&format!("data:{}:-", hex(b"after"))));
+                for cut in start..=end {
+                    emit("ts.read", vec![s(role), hex(&e[..cut])]);
+                    emit("ts.readbuf", vec![s(role), hex(&e[..cut])]);
+                    let sc = vec![Step::Give(cut), Step::Pending, Step::Give(e.len() - cut + 1), Step::Give(1)];
+                    emit("ts.readasync", vec![s(role), hex(&e), fmt_script(&sc), s("open")]);
+                }
+            }
             for _ in 0..200 * scale {
                 // capsules: unknown capsule types are skipped by the session stream reader
                 let c = gen_capsule_payload(rng);
